@@ -73,6 +73,11 @@ pub fn gen(prop: &str, scen: &str, _k: u64, seed: u64, tier: &str) -> Case {
                 // several independent units: the properties are decoded again for each of them
                 case.set("multi_unit", 1);
                 case.input.len = 3 * 4096 + r_in.urange(1, 5000);
+            } else if r_in.pct(60) {
+                // incompressible data: stored (uncompressed) chunks of up to 64 KiB, read with
+                // one large destination buffer
+                case.input = InputSpec::new(*r_in.pick(&["random", "random", "incomp_then_comp", "mixed"]), r_in.urange(20_000, 200_000), r_in.next_u64());
+                case.input.p1 = *r_in.pick(&[50u64, 80, 3000]);
             }
         }
         _ => {
